@@ -65,12 +65,13 @@ Definition bytes_per_pixel (pp : pred_parms) : nat :=
 Definition bytes_per_row (pp : pred_parms) : nat :=
   Z.to_nat ((pp_colors pp * pp_bits pp * pp_columns pp + 7) / 8).
 
-(* the parameter values the property ranges over; the last clause says that one row fits into the address
-   space of the machine (2^47 bytes) *)
+(* the parameter values the property ranges over; the last two clauses say that the size of one pixel in bits
+   and the size of one row in bytes are machine integers (at most 2^64 - 1) *)
 Definition legal_pp (pp : pred_parms) : Prop :=
   10 <= pp_predictor pp <= 15 /\ 1 <= pp_columns pp /\ 1 <= pp_colors pp /\
   (pp_bits pp = 8 \/ pp_bits pp = 16) /\
-  pp_colors pp * pp_bits pp * pp_columns pp < 8 * 140737488355328.
+  pp_colors pp * pp_bits pp <= 18446744073709551615 /\
+  pp_colors pp * pp_bits pp * pp_columns pp <= 8 * 18446744073709551615.
 
 Definition parms_describe (p : option dict) (pp : pred_parms) : Prop :=
   int_parm p P_Predictor 1 = pp_predictor pp /\ int_parm p P_Columns 1 = pp_columns pp /\
